@@ -83,6 +83,12 @@ CHECKS = {
 "C09": ("exploration", "deterministic simulation with a Byzantine raw peer: structure-aware malformed OPN/MSG/CLO chunks against the receive path in every reachable channel state; totality (no-panic) oracle",
         "40 mutations per run (length fields -1/0/huge, truncation below header+signature, wrong chunk type, random frames, bit flips) x receiver states {keys established, policy set without keys, fresh, fresh with certificate} x all policies/modes/roles.",
         "Panics are caught per mutation, so one run reports every panic site it reaches.", "7/C09"),
+"C10": ("exploration", "deterministic simulation: seeded chunk histories beyond the server's limits and oversized frame headers from a raw client against the real reader loop; resource-bound invariant read after every delivered chunk",
+        "Oracle: pending chunks <= max chunk count and pending bytes <= max message size after every step; the offending chunk ends the connection; an oversized declared frame is refused within 200 virtual ms; a legal one is not.",
+        "Pending buffer observed through the guarded accessor TcpTransport::verif_pending_chunks; policy None.", "7/C10"),
+"C12": ("exploration", "deterministic simulation: (a) seeded message histories through the real SendBuffer / MessageWriter with sequence headers inspected; (b) MITM reorder / duplicate / drop / hold / replay of a raw client's chunks before the real server reader loop; accepted-implies-fresh oracle",
+        "Oracle: chunk numbers step by exactly one, request ids unique; a message the server answers consisted of consecutive numbers above every accepted one with one request id; a replayed accepted message is not answered again.",
+        "Policy None so the MITM stage can read sequence headers; client-side receiver is exercised in C35's world.", "7/C12"),
 }
 
 def main():
